@@ -1,7 +1,8 @@
 (* C12 -- formatting never changes what a program means and never loses comments. *)
 From Coq Require Import List NArith Bool.
 Import ListNotations.
-From Mos Require Import model.Format Gen.FmtRules model.FormatTokens model.FormatCmd spec.FormatSpec
+From Mos Require Import model.Nom model.Parser spec.LayoutEquiv proofs.C08Sweep.
+From Mos Require Import model.Format Gen.FmtRules model.FormatTokens model.FormatParse model.FormatCmd spec.FormatSpec proofs.FormatSweepDefs proofs.FormatSweep
   proofs.FormatProofs proofs.FormatTokensProofs proofs.FormatPreserved proofs.FormatCmdProofs.
 
 (* Line assembly (join_chunks), for ALL chunk lists and ALL options: the non-whitespace characters of the output are
@@ -13,12 +14,12 @@ Theorem C12_join_preserves : forall cs o, nonempty_chunks cs ->
 Proof. exact join_preserves. Qed.
 Print Assumptions C12_join_preserves.
 
-(* A comment chunk that is followed by a newline chunk (every `//` comment is: format_tokens emits the newline trivia right
+(* A one-line comment chunk that is followed by a newline chunk (every `//` comment is: format_tokens emits the newline trivia right
    behind it) is the last thing on its output line: the lines split, at a line boundary, into those that hold everything
    up to and including the comment and those that hold everything behind it.  No later text is ever put behind a line
    comment (it would be commented out). *)
 Theorem C12_line_comment_ends_line : forall pre c ind post o,
-  c_ty c = Some Comment -> c_str c <> [] -> nonempty_chunks post ->
+  c_ty c = Some Comment -> c_str c <> [] -> contains_nl (c_str c) = false -> nonempty_chunks post ->
   exists l1 l2, join_lines (pre ++ c :: mkChunk None ind [NL] :: post) o = l1 ++ l2 /\
     nows (concat l1) = nows (chunks_text (pre ++ [c])) /\ nows (concat l2) = nows (chunks_text post).
 Proof. exact line_comment_ends_line. Qed.
@@ -57,6 +58,24 @@ Theorem C12_no_comment_lost : forall o ts, wf_tokens ts = true ->
   subseq (nows (concat (all_comments ts))) (nows (format o ts)).
 Proof. exact no_comment_lost. Qed.
 Print Assumptions C12_no_comment_lost.
+
+(* The formatted text parses to the same tokens: with model/Parser.v (C05) and the projection model/FormatParse.v,
+   `format_source o s` = format o (parse s) is a Gallina term, tied to the real parse + format on every generated file.
+   PARTIAL: proved by exhaustive kernel evaluation over the layout domain of C08 (every statement form of the grammar plus
+   three instruction shapes for every mnemonic -- 126 templates -- each in its canonical layout and in every variant of
+   proofs/C08Sweep.v: 7458 texts, with blanks, tabs, nested / multi-line block comments, line comments, LF / CRLF in every
+   trivia slot, re-cased keywords) x 3 option sets (defaults; upper case + brace on a new line + indent 2 + margins 5/4 +
+   left alignment; all margins and indent 0): the text is formatted without diagnostics and the result parses, without
+   diagnostics, to the same skeleton (token tree without spans, trivia, keyword spelling).
+   Missing for the unbounded statement: a print-then-parse theorem for the whole grammar (the unbounded form of
+   C08_layout_bounded_partial: parsing the exact text of a tree gives the tree back); the formatter side of it is proved --
+   consecutive statements are separated by a line break (C12_statements_separated), a line comment ends its line
+   (C12_line_comment_ends_line), no character is lost or reordered (C12_format_accounts, C12_no_comment_lost). *)
+Theorem C12_reparse_bounded_partial : forall o tpl s,
+  In o sweep_options3 -> In tpl templates -> In s (canon tpl :: variants tpl) ->
+  exists f, format_source o s = Some f /\ skel_parse f = skel_parse s /\ skel_parse s <> None.
+Proof. exact reparse_bounded. Qed.
+Print Assumptions C12_reparse_bounded_partial.
 
 (* Two statements are never emitted back to back (repaired defect: `lda foo lda bar` became `lda foolda bar`): between a
    statement and the next one -- unless the first is a label standing in front of its statement, which join_chunks
